@@ -38,6 +38,30 @@ func NewDDList(values ...any) *DDList {
 	return d
 }
 
+// DDDList: three embedding levels.
+type DDDList struct {
+	*DDList
+	more string
+}
+
+func NewDDDList(values ...any) *DDDList {
+	d := &DDDList{DDList: NewDDList(values...), more: "3"}
+	d.Init(d)
+	return d
+}
+
+// DDObject embeds a derived object (two levels).
+type DDObject struct {
+	*DObject
+	extra int
+}
+
+func NewDDObject(values ...any) *DDObject {
+	d := &DDObject{DObject: NewDObject(values...), extra: 2}
+	d.Init(d)
+	return d
+}
+
 type DObject struct {
 	at.Object
 	tag string
@@ -438,11 +462,14 @@ func opNewDerived(h *Hist) {
 		return
 	}
 	h.begin("NewDerived", "C19")
-	kind := h.d.Draw("derived-kind", 3)
+	kind := h.d.Draw("derived-kind", 5)
 	switch kind {
-	case 0, 1:
+	case 0, 1, 3:
 		n := h.newNode(false, "NewDerived")
 		n.Derived = 1 + kind
+		if kind == 3 {
+			n.Derived = 3
+		}
 		k := h.d.Draw("n-values", 4)
 		var gvs []any
 		homog := h.d.Draw("derived-homogeneous", 4) == 0
@@ -456,12 +483,16 @@ func opNewDerived(h *Hist) {
 			n.Elems = append(n.Elems, mv)
 		}
 		var l at.List
-		if kind == 0 {
+		switch kind {
+		case 0:
 			l = NewDList(gvs...)
 			n.Name = "DL" + strconv.Itoa(n.ID)
-		} else {
+		case 1:
 			l = NewDDList(gvs...)
 			n.Name = "DDL" + strconv.Itoa(n.ID)
+		default:
+			l = NewDDDList(gvs...)
+			n.Name = "DDDL" + strconv.Itoa(n.ID)
 		}
 		h.bind(n, l)
 		h.verifyFrom(n, []string{"C19"})
@@ -478,12 +509,17 @@ func opNewDerived(h *Hist) {
 			args = append(args, key, gv)
 			n.Fields[key] = mv
 		}
-		o := NewDObject(args...)
+		var o at.Object = NewDObject(args...)
+		if kind == 4 {
+			o = NewDDObject(args...)
+			n.Derived = 2
+			n.Name = "DDO" + strconv.Itoa(n.ID)
+		}
 		h.bind(n, o)
 		h.verifyFrom(n, []string{"C19"})
 		h.tracef("%s := derived object %s", n.Name, n.render(1))
 	}
-	h.counters["probe:derived-level-"+strconv.Itoa(kind%2+1)]++
+	h.counters["probe:derived-level-"+strconv.Itoa(h.nodes[len(h.nodes)-1].Derived)]++
 }
 
 // ---- list mutators ---------------------------------------------------------------------------------
